@@ -44,6 +44,22 @@ OUTSIDE = ('validity for ARBITRARY topologies (the quantifier of the property is
            'curved higher-order elements (the code places every new node on the straight-sided triangle), rounding error of evaluating the formulas in binary64')
 
 
+DESIGNED_NOT_REGISTERED = [
+    ('O1 as an exact identity (node == v2 + J xi_a without tolerance)',
+     'false in exact rational arithmetic: the barycentric weights the code uses for edge nodes (1-s, s from the 1-D table) and interior nodes (N0, N1, 1-N0-N1) differ from the '
+     '2-D reference table by up to 1.75 ulp in L1 (measured on all orders); registered with the tolerance 4 ulp * box (3.6e-15), vertex nodes exactly'),
+    ('O3 as one query per mesh "no pair of nodes has equal coordinates" (disjunction of equalities) and as per-pair equality queries',
+     'monolithic: 31 s (core) / 17 s (nlsat) already for P3 on two elements; per-pair equalities of nodes of two different elements: unknown at 10 s for 9 of 36 pairs; replaced by '
+     'the separating-functional form (b - a) x (x_p - x_q) >= margin batched per element / shared edge / candidate separating side, which the smt tactic decides in milliseconds '
+     '(the default z3 strategy and nlsat answer unknown on the same formulas as soon as the tables carry rounding residue, i.e. from P3 on)'),
+    ('O3 for pairs of elements that share at most a vertex from "every element area >= a_min" alone',
+     'not a theorem for open fans/strips (positive areas do not exclude overlap of non-adjacent elements) and, where it is one (closed fan), it needs a global winding argument that '
+     'nlsat did not finish (10 reals, unknown at 10 s per pair); registered with the explicit separation hypothesis per candidate side (separating-axis theorem)'),
+    ('validity for arbitrary topologies, create_edges on arbitrary connectivity, combine_mesh/combine_blocks/node sets/side sets, the two file readers as readers',
+     'not applicable to solver-based checking (quantifier over topologies/files; integer bookkeeping behind numpy.sort/unique, JSON, netCDF): stated in OUTSIDE'),
+]
+
+
 def _mods():
     from optimism import Mesh, Interpolants
     return Mesh, Interpolants
@@ -81,10 +97,11 @@ def topologies(which=('tri', 'two', 'fan', 'strip')):
 
 
 def configs(h):
-    """(order, bubble): orders 2, 3 quick; 4, 5 and the bubble elements thorough"""
-    q = [(2, False), (3, False)]
+    """(order, bubble): orders 2, 3 and P3 with bubble quick (P3b: two interior nodes per edge AND three non-symmetric interior nodes; P2/P3 are blind to permutations of
+    those); 4, 5 and the other bubble elements thorough"""
+    q = [(2, False), (3, False), (3, True)]
     if h.thorough():
-        q += [(4, False), (5, False), (2, True), (3, True), (4, True), (5, True)]
+        q += [(4, False), (5, False), (2, True), (4, True), (5, True)]
     return q
 
 
@@ -164,6 +181,7 @@ class Elev:
         self.int1d = [int(v) for v in pe1.interiorNodes]
         self.nn = int(ho.coords.shape[0])
         self.simplex = [int(v) for v in ho.simplexNodesOrdinals]
+        self.in_range = all(0 <= g < self.nn for row in self.conns for g in row) and all(0 <= a < self.npe for f in self.face for a in f)
         conns0 = self.conns
 
         def fn(X):
@@ -173,17 +191,28 @@ class Elev:
                 raise RuntimeError('connectivity of the traced run differs from the concrete run')
             return m.coords
         self.fn = fn
+        self.emb = emb
         if case:
-            self.case = Case(h, fn, dict(X=onp.asarray(emb, dtype=float)), sampler=emb_sampler(emb), label='elevate ' + self.label, validate=2)
+            self.mk_case(h)
+
+    def mk_case(self, h):
+        self.case = Case(h, self.fn, dict(X=onp.asarray(self.emb, dtype=float)), sampler=emb_sampler(self.emb), label='elevate ' + self.label, validate=2)
 
     def lam(self, a):
         return bary(self.pc[a])
 
 
-def cases(h, which=('tri', 'two', 'fan', 'strip'), case=True, cfgs=None):
+def cases(h, which=('tri', 'two', 'fan', 'strip'), case=True, cfgs=None, need_range=True):
     for label, conn, emb in topologies(which):
         for order, bubble in (cfgs or configs(h)):
-            yield Elev(h, label, conn, emb, order, bubble, case=case)
+            E = Elev(h, label, conn, emb, order, bubble, case=False)
+            if need_range and not E.in_range:
+                # (does not occur for the unchanged code) the coordinate goals index the node array with the connectivity
+                ground(h, 'connectivity_in_range[%s]' % E.label, False, 'connectivity or face tables out of range: %s / %s' % (E.conns, E.face), dict(conns=E.conns))
+                continue
+            if case:
+                E.mk_case(h)
+            yield E
 
 
 def common(h):
@@ -197,7 +226,7 @@ def common(h):
 
 
 TOPO_TEXT = ('fixed connectivities: single triangle (3 cyclic vertex orders), two triangles sharing an edge (all 9 combinations of cyclic orders), closed 4-triangle fan '
-             'around an interior vertex, 4-triangle strip bent around a boundary notch (mixed cyclic orders); orders 2, 3 (thorough: 4, 5 and the bubble elements P2b..P5b)')
+             'around an interior vertex, 4-triangle strip bent around a boundary notch (mixed cyclic orders); orders 2, 3, 3+bubble (thorough: 4, 5 and the bubble elements P2b, P4b, P5b)')
 
 
 # ------------------------------------------------------------------------------------------ O1
@@ -282,6 +311,8 @@ def o3_atoms(E, X, XH):
     for p, q in itertools.combinations(range(E.nn), 2):
         ep = [e for e in range(ne) if p in sets[e]]
         eq_ = [e for e in range(ne) if q in sets[e]]
+        if not ep or not eq_:
+            continue                # a node used by no element cannot be located through an element map: reported by O4 (unused node), skipped here
         both = [e for e in ep if e in eq_]
         if both:
             e = both[0]
@@ -311,7 +342,8 @@ def o3_atoms(E, X, XH):
             adj[(i, j)][0].append(0.5 * lo * DET_MIN)
             adj[(i, j)][1].append(cross(a, b, XH[p], XH[q]))
             continue
-        far.setdefault((ep[0], eq_[0]), []).append((p, q))
+        i, j = ep[0], eq_[0]
+        far.setdefault((min(i, j), max(i, j)), []).append((p, q) if i < j else (q, p))      # (node of e_i, node of e_j) with i < j
     for e in range(ne):
         if same[e][0]:
             atoms.append(Le(same[e][0], same[e][1], when=v_le(DET_MIN, dets[e]), scale=DET_MIN, name='same_element[e%d:%d pairs]' % (e, len(same[e][0]))))
@@ -320,10 +352,14 @@ def o3_atoms(E, X, XH):
                         name='across_shared_edge[e%d|e%d:%d pairs]' % (i, j, len(lo))))
     for (i, j), prs in sorted(far.items()):
         # candidate separating lines: the three sides of e_i (p side non-negative), the three sides of e_j (q side non-negative)
+        shared = [w for w in conn[i] if w in conn[j]]
+        covered = set()
         for owner, other, flip in ((i, j, False), (j, i, True)):
             c = conn[owner]
             for k in range(3):
                 ia, ib = c[k], c[(k + 1) % 3]
+                if any(w not in (ia, ib) for w in shared):
+                    continue        # a shared vertex off the line lies strictly on the owner's side: this side cannot separate the two triangles
                 a, b = X[ia], X[ib]
                 rest = [w for w in conn[other] if w not in (ia, ib)]
                 hyp = v_and(v_le(DET_MIN, dets[owner]), *[v_le(orient(a, b, X[w]), -DET_MIN) for w in rest])
@@ -337,8 +373,10 @@ def o3_atoms(E, X, XH):
                         continue
                     lo.append(0.5 * (l_own + l_oth) * DET_MIN)
                     val.append(cross(a, b, XH[po], XH[pt]))
+                    covered.add((p, q))
                 if lo:
                     atoms.append(Le(lo, val, when=hyp, scale=DET_MIN, name='separated_by_side[e%d,e%d;line %d-%d of e%d:%d pairs]' % (i, j, ia, ib, owner, len(lo))))
+        direct += [(p, q, [i, j]) for p, q in prs if (p, q) not in covered]
     for p, q, els in direct:
         # no separating functional with a margin is available from the reference tables (does not occur for the unchanged code): ask directly
         atoms.append(Holds(v_or(v_not(v_eq(XH[p][0], XH[q][0])), v_not(v_eq(XH[p][1], XH[q][1]))),
@@ -357,7 +395,7 @@ def _o3(h, which):
     for E in cases(h, which):
         def spec(i, o, E=E):
             return box(i['X']), o3_atoms(E, i['X'], o)
-        E.case.prove('O3[%s]' % E.label, spec, cap=60)
+        E.case.prove('O3[%s]' % E.label, spec, cap=60, order=('smt', 'nlsat'))
 
 
 @obligation(P, 'O3a.distinct_nodes_one_and_two_elements', cap=280)
@@ -379,15 +417,16 @@ def o4(h):
     node used by exactly the elements adjacent to its edge, every element-interior node used by exactly one element, no node twice in one element"""
     common(h)
     h.bounds(TOPO_TEXT, 'no symbolic input: the connectivity does not depend on the coordinates (ground facts admitted by DESIGN.md section 5 C13-O4)')
-    for E in cases(h, case=False):
+    for E in cases(h, case=False, need_range=False):
         conn, ne = E.conn, len(E.conn)
         nE = len(interior_edges(conn)) + len(boundary_sides(conn))
         nint1, nint2 = E.order - 1, len(E.inter)
         flatc = [g for row in E.conns for g in row]
-        use = {g: [e for e in range(ne) if g in E.conns[e]] for g in range(E.nn)}
+        use = {g: [e for e in range(ne) if g in E.conns[e]] for g in set(range(E.nn)) | set(flatc)}
         problems = []
-        if not all(0 <= g < E.nn for g in flatc):
-            problems.append('out of range')
+        if not E.in_range:
+            ground(h, 'O4[%s]' % E.label, False, 'connectivity or face tables out of range: %s / %s' % (E.conns, E.face), dict(conns=E.conns))
+            continue
         if sorted(set(flatc)) != list(range(E.nn)):
             problems.append('unused nodes %s' % sorted(set(range(E.nn)) - set(flatc)))
         if E.nn != E.nv + nE * nint1 + ne * nint2:
@@ -423,3 +462,355 @@ def o4(h):
         if len(seen) != E.nn:
             problems.append('nodes that are neither vertex, edge nor interior nodes: %s' % sorted(set(range(E.nn)) - seen))
         ground(h, 'O4[%s]' % E.label, not problems, '%d nodes, %d elements x %d nodes, %d edges; %s' % (E.nn, ne, E.npe, nE, problems or 'all facts hold'), dict(problems=problems))
+
+
+# ------------------------------------------------------------------------------------------ O5
+EXO_QUAD = [[0., 0.], [1., 0.], [1., 1.], [0., 1.]]
+EXO_CORNERS = [[1, 2, 0], [3, 0, 2]]                     # two counter-clockwise triangles of the quadrilateral 0-1-2-3, different cyclic orders
+EXO_IDS = [[7, 1, 4, 8, 0, 5], [2, 4, 1, 6, 0, 3]]       # (corners V0..V3 are nodes 4, 7, 1, 2; node 0 is the shared mid-side node) scrambled global (0-based) ids in the EXODUS order: 3 corners, then mid-sides 1-2, 2-3, 3-1 of the element
+EXO_NOTE = ('Exodus II convention for TRI6 (Exodus II manual, element node ordering; the repository contains no comment on it): local nodes 1-3 are the corners in '
+            'counter-clockwise order, node 4 lies on side 1-2, node 5 on side 2-3, node 6 on side 3-1; the in-memory file follows it, with every mid-side node at the '
+            'mid-point of its side (a geometric Tri6)')
+
+
+class _Rec:
+    """stand-in for a netCDF4 variable"""
+
+    def __init__(self, data, **attrs):
+        self._data = data
+        self.__dict__.update(attrs)
+
+    def set_auto_mask(self, flag):
+        pass
+
+    def __getitem__(self, idx):
+        return self._data if not isinstance(self._data, onp.ndarray) else self._data[idx]
+
+
+class _Masked:
+    def __init__(self, a):
+        self._a = a
+
+    def filled(self):
+        return self._a
+
+
+class _FakeExodus:
+    """stand-in for netCDF4.Dataset holding one TRI6 block; the nodal coordinates may be tracers"""
+
+    def __init__(self, x, y, conn1, elem_type='TRI6'):
+        nel, npe = onp.asarray(conn1).shape
+        self.dimensions = {'num_nodes': range(int(x.shape[0])), 'num_dim': range(2), 'num_nod_per_el1': range(npe), 'num_el_blk': range(1), 'num_el_in_blk1': range(nel)}
+        self.variables = {'coordx': _Rec(_Masked(x)), 'coordy': _Rec(_Masked(y)), 'eb_names': _Rec([[b'']]),
+                          'connect1': _Rec(onp.asarray(conn1, dtype=onp.int64), elem_type=elem_type)}
+
+    def __getitem__(self, k):
+        return self.variables[k]
+
+    def __enter__(self):
+        return self
+
+    def __exit__(self, *a):
+        return False
+
+
+def exo_nodes(V):
+    """coordinates of the 9 nodes of the two geometric Tri6 elements from the 4 corner coordinates V (jnp or numpy), in the scrambled global numbering"""
+    rows = [None] * 9
+    for corners, ids in zip(EXO_CORNERS, EXO_IDS):
+        c = [V[k] for k in corners]
+        pts = c + [0.5 * (c[0] + c[1]), 0.5 * (c[1] + c[2]), 0.5 * (c[2] + c[0])]
+        for g, pnt in zip(ids, pts):
+            rows[g] = pnt
+    return rows
+
+
+def read_fake_exodus(V):
+    """the REAL ReadExodusMesh.read_exodus_mesh on the in-memory file"""
+    from optimism import ReadExodusMesh as R
+    rows = exo_nodes(V)
+    X = jnp.stack(rows)
+    fake = _FakeExodus(X[:, 0], X[:, 1], onp.asarray(EXO_IDS) + 1)
+    saved = R.netCDF4.Dataset
+    R.netCDF4.Dataset = lambda fileName: fake
+    try:
+        return R.read_exodus_mesh('in-memory TRI6 file')
+    finally:
+        R.netCDF4.Dataset = saved
+
+
+def vtk_cells(mesh):
+    """cell rows and cell types as the REAL VTKWriter writes them (text parsed back)"""
+    from optimism import VTKWriter as W
+    w = W.VTKWriter(mesh, baseFileName='/tmp/c13_not_written')
+    buf = io.StringIO()
+    w._write_cell_connectivity(buf)
+    lines = [l for l in buf.getvalue().splitlines() if l.strip()]
+    head = lines[0].split()
+    rows = [[int(float(t)) for t in l.split()] for l in lines[1:]]
+    buf = io.StringIO()
+    w._write_cell_types(buf)
+    tl = [l for l in buf.getvalue().splitlines() if l.strip()]
+    types = [int(float(l)) for l in tl[1:]]
+    return head, rows, types, [int(v) for v in onp.asarray(w.outputNodes)]
+
+
+def vtk_quadratic_atoms(P, rows, corners_xy, tag):
+    """P: point coordinates by VTK point index; VTK_QUADRATIC_TRIANGLE (type 22): 3 corners, then mid-sides 0-1, 1-2, 2-0"""
+    eqL, eqR, mids = [], [], []
+    for r, cxy in zip(rows, corners_xy):
+        ids = r[1:]
+        for k in range(3):
+            for d in range(2):
+                eqL.append(P[ids[k]][d])
+                eqR.append(cxy[k][d])
+                a, b = P[ids[k]], P[ids[(k + 1) % 3]]
+                mids.append(v_abs(v_sub(P[ids[3 + k]][d], v_mul(0.5, v_add(a[d], b[d])))))
+    return [Eq(eqL, eqR, name='vtk_corners_are_the_element_vertices_in_order' + tag),
+            Le(mids, TOL_NODE, name='vtk_nodes_3_4_5_are_midsides_01_12_20' + tag, scale=SC)]
+
+
+@obligation(P, 'O5.tri6_exodus_and_vtk_node_order', cap=280)
+def o5(h):
+    """the real Exodus reader applied to a geometric Tri6 file (mid-side nodes at the side mid-points of SYMBOLIC triangles, Exodus node order) yields the native
+    layout: native node k of every element sits at v2 + J xi_k of the real degree-2 parent element; the real VTK writer turns native quadratic connectivity (from the
+    reader and from the real order elevation) into VTK quadratic-triangle order (corners, then mid-sides 01, 12, 20) and writes the vertex triangle for other degrees"""
+    M, I = _mods()
+    from optimism import ReadExodusMesh as R, VTKWriter as W
+    common(h)
+    h.encoded(R.read_exodus_mesh, R._read_blocks, R._read_block_conns, R._read_coordinates, R._get_vertex_nodes_from_exodus_tri6_mesh, 'optimism.ReadExodusMesh.exodusToNativeTri6NodeOrder',
+              W.VTKWriter.__init__, W.VTKWriter._write_cell_connectivity, W.VTKWriter._write_cell_types)
+    h.bounds('Exodus: two Tri6 elements sharing a side, 9 nodes with a scrambled numbering, the 4 corner coordinates free in [-%g,%g]^2 (no area hypothesis); VTK: that mesh, and the '
+             'elevated meshes two[r,s] (all nine), fan, strip_notch at P2 (quadratic cells) and P3 (thorough: P2b, P4; linear cells); tolerance %.3g' % (BOX, BOX, TOL_NODE))
+    h.assume_note(EXO_NOTE, 'netCDF4.Dataset is replaced by an in-memory stand-in with the dimensions/variables the reader asks for (one unnamed TRI6 block, no sets, no element map); '
+                  'the netCDF C library and the file format are outside the claim', 'the VTK writer is run on a text buffer and the CELLS / CELL_TYPES records are parsed back; '
+                  'point i of the file is mesh.coords[outputNodes[i]] (the writer\'s own attribute; the POINTS record itself fills a NumPy array and is not traced)')
+    # ---- Exodus reader
+    m0 = read_fake_exodus(jnp.asarray(EXO_QUAD))
+    conns0 = [[int(v) for v in row] for row in onp.asarray(m0.conns)]
+    pe = m0.parentElement
+    pc = pyf(pe.coordinates)
+    vert = [int(v) for v in pe.vertexNodes]
+    okc = [[conns0[e][k] for k in vert] for e in range(2)] == [ids[:3] for ids in EXO_IDS]
+    ground(h, 'exodus.native_vertex_nodes_are_the_file_corners', okc and int(pe.degree) == 2 and len(pc) == 6, 'native conns %s, vertexNodes %s, file (0-based, Exodus order) %s' % (conns0, vert, EXO_IDS))
+    simplex = sorted(int(v) for v in onp.asarray(m0.simplexNodesOrdinals))
+    ground(h, 'exodus.simplexNodesOrdinals_are_the_corner_nodes', simplex == sorted(set(i for ids in EXO_IDS for i in ids[:3])), 'simplexNodesOrdinals %s' % simplex)
+    ground(h, 'exodus.connectivity_in_range_all_nodes_used', sorted(set(g for row in conns0 for g in row)) == list(range(9)) and all(len(set(r)) == 6 for r in conns0), str(conns0))
+    head, rows, types, outn = vtk_cells(m0)
+    ground(h, 'exodus.vtk_cells_reproduce_the_file_order', [r[1:] for r in rows] == EXO_IDS and all(r[0] == 6 for r in rows) and types == [22, 22] and outn == list(range(9))
+           and head[:2] == ['CELLS', '2'] and int(head[2]) == 14, 'VTK quadratic-triangle order equals the Exodus TRI6 order: written rows %s types %s header %s' % (rows, types, head))
+
+    def fn(V):
+        with jax.ensure_compile_time_eval():
+            m = read_fake_exodus(V)
+        if isinstance(m.conns, jax.core.Tracer) or [[int(v) for v in row] for row in onp.asarray(m.conns)] != conns0:
+            raise RuntimeError('connectivity of the traced run differs from the concrete run')
+        return m.coords
+    c = Case(h, fn, dict(V=onp.asarray(EXO_QUAD)), sampler=emb_sampler(EXO_QUAD), label='read_exodus_mesh(in-memory TRI6)', validate=2)
+
+    def spec(i, o):
+        V, XN = i['V'], o
+        lhs = []
+        for e, corners in enumerate(EXO_CORNERS):
+            v, J, det = geom(V, corners)
+            for k in range(6):
+                p = affine_point(v, J, pc[k])
+                g = conns0[e][k]
+                lhs += [v_abs(v_sub(XN[g][0], p[0])), v_abs(v_sub(XN[g][1], p[1]))]
+        return box(V), [Le(lhs, TOL_NODE, name='native_node_k_at_affine_image_of_reference_node_k', scale=SC)] + \
+            vtk_quadratic_atoms(XN, rows, [[V[k] for k in corners] for corners in EXO_CORNERS], '')
+    c.prove('exodus_tri6', spec, cap=40)
+
+    # ---- VTK writer on meshes elevated by the real code
+    cfgs = [(2, False), (3, False)] + ([(2, True), (4, False)] if h.thorough() else [])
+    for E in cases(h, ('two', 'fan', 'strip'), cfgs=cfgs):
+        head, rows, types, outn = vtk_cells(E.ho)
+        ne = len(E.conn)
+        quad = E.order == 2          # P2 with bubble is written as a quadratic triangle too (its first six nodes are the P2 nodes; the bubble node is an unused point)
+        if quad:
+            okg = all(r[0] == 6 and len(r) == 7 for r in rows) and types == [22] * ne and outn == list(range(E.nn))
+        else:
+            okg = all(r[0] == 3 and len(r) == 4 for r in rows) and types == [5] * ne and outn == list(range(E.nv))
+        okg = okg and len(rows) == ne and head[:2] == ['CELLS', str(ne)] and int(head[2]) == sum(len(r) for r in rows) and all(0 <= g < len(outn) for r in rows for g in r[1:])
+        ground(h, 'vtk[%s].records' % E.label, okg, 'CELLS header %s, rows %s, cell types %s, %d output nodes' % (head, rows[:2], types, len(outn)))
+        if not okg:
+            continue
+
+        def specv(i, o, E=E, rows=rows, outn=outn, quad=quad):
+            X, XH = i['X'], o
+            Pts = [XH[g] for g in outn]
+            cxy = [[X[k] for k in c] for c in E.conn]
+            if quad:
+                return box(X), vtk_quadratic_atoms(Pts, rows, cxy, '')
+            l, r = [], []
+            for row, cc in zip(rows, cxy):
+                for k in range(3):
+                    for d in range(2):
+                        l.append(Pts[row[1 + k]][d])
+                        r.append(cc[k][d])
+            return box(X), [Eq(l, r, name='vtk_linear_cells_are_the_vertex_triangles_in_order')]
+        E.case.prove('vtk[%s]' % E.label, specv, cap=40)
+
+
+# ------------------------------------------------------------------------------------------ O6
+def structured_sizes(h):
+    return [(2, 2), (3, 2), (2, 3), (3, 3)] + ([(4, 3), (3, 4), (5, 2), (4, 4)] if h.thorough() else [])
+
+
+def edge_table_facts(conn, edgeConns, edges):
+    """ground comparison of the real create_edges tables with the independent side oracle"""
+    d = sides_of(conn)
+    problems = []
+    seen = set()
+    for row, (a, b) in zip(edges, edgeConns):
+        lT, lP, rT, rP = row
+        if d.get((a, b)) != (lT, lP):
+            problems.append('row %s: (%d,%d) is not side %d of element %d' % (row, a, b, lP, lT))
+        seen.add((a, b))
+        if (b, a) in d:
+            if d[(b, a)] != (rT, rP):
+                problems.append('row %s: right element/side should be %s' % (row, d[(b, a)]))
+            seen.add((b, a))
+        elif (rT, rP) != (-1, -1):
+            problems.append('row %s: boundary edge with right data' % (row,))
+    if seen != set(d) or len(edges) != len(interior_edges(conn)) + len(boundary_sides(conn)):
+        problems.append('sides not listed exactly once: missing %s' % sorted(set(d) - seen))
+    return problems
+
+
+@obligation(P, 'O6.structured_mesh', cap=280)
+def o6(h):
+    """Mesh.construct_structured_mesh with SYMBOLIC extents: nodes on the regular grid, every element counter-clockwise with area Lx Ly / (2 Ex Ey) > 0; the real create_edges
+    on its connectivity: tables agree with an independent side oracle (ground), the left element lies to the left and the right element to the right of every edge, every
+    mesh node lies weakly to the left of every boundary edge (boundary edges counter-clockwise, normal (t_y, -t_x) outward)"""
+    M, I = _mods()
+    common(h)
+    h.encoded(M.construct_structured_mesh, M.create_structured_mesh_data)
+    TOLG = 16 * EPS * BOX
+    TOLA = 64 * EPS * BOX * BOX
+    h.bounds('grids Nx x Ny in %s (thorough: up to 4 x 4, 5 x 2); extents x0, x1, y0, y1 free in [-%g,%g] with x1 - x0 >= %g, y1 - y0 >= %g; tolerances %.3g (nodes), %.3g (areas)'
+             % (structured_sizes(h)[:4], BOX, BOX, L_MIN, L_MIN, TOLG, TOLA))
+    for Nx, Ny in structured_sizes(h):
+        m0 = M.construct_structured_mesh(Nx, Ny, [0., 1.], [0., 1.])
+        conn = [[int(v) for v in row] for row in onp.asarray(m0.conns)]
+        ec, ed = M.create_edges(m0.conns)
+        edgeConns = [[int(v) for v in row] for row in onp.asarray(ec)]
+        edges = [[int(v) for v in row] for row in onp.asarray(ed)]
+        Ex, Ey = Nx - 1, Ny - 1
+        lab = '%dx%d' % (Nx, Ny)
+        probs = edge_table_facts(conn, edgeConns, edges)
+        nb = sum(1 for r in edges if r[2] < 0)
+        if nb != 2 * (Ex + Ey) or len(edges) != 3 * Ex * Ey + Ex + Ey or len(conn) != 2 * Ex * Ey:
+            probs.append('counts: %d elements, %d edges, %d boundary edges' % (len(conn), len(edges), nb))
+        if sorted(set(g for c in conn for g in c)) != list(range(Nx * Ny)):
+            probs.append('connectivity does not use exactly the grid nodes')
+        ground(h, 'structured[%s].edge_tables_and_counts' % lab, not probs, '%d elements, %d edges (%d boundary); %s' % (len(conn), len(edges), nb, probs or 'tables agree with the side oracle'), dict(problems=probs))
+        tables_ok = not probs
+        if not all(0 <= g < Nx * Ny for c in conn for g in c):
+            continue            # reported by the ground fact above; the coordinate goals index the node array with the connectivity
+
+        def fn(ext, Nx=Nx, Ny=Ny, conn=conn):
+            with jax.ensure_compile_time_eval():
+                m = M.construct_structured_mesh(Nx, Ny, [ext[0], ext[1]], [ext[2], ext[3]])
+            if isinstance(m.conns, jax.core.Tracer) or [[int(v) for v in row] for row in onp.asarray(m.conns)] != conn:
+                raise RuntimeError('connectivity of the traced run differs from the concrete run')
+            return m.coords
+
+        def smp(rng):
+            x0, y0 = rng.uniform(-2, 1, size=2)
+            return [onp.array([x0, x0 + rng.uniform(0.3, 2), y0, y0 + rng.uniform(0.3, 2)])]
+        c = Case(h, fn, dict(ext=onp.array([0., 1., 0., 1.])), sampler=smp, label='construct_structured_mesh %s' % lab, validate=2)
+
+        def spec(i, o, Nx=Nx, Ny=Ny, conn=conn, edgeConns=edgeConns, edges=edges, tables_ok=tables_ok):
+            ext, XS = i['ext'], o
+            x0, x1, y0, y1 = [ext[k] for k in range(4)]
+            Lx, Ly = v_sub(x1, x0), v_sub(y1, y0)
+            Ex, Ey = Nx - 1, Ny - 1
+            asm = box(ext) + [v_le(L_MIN, Lx), v_le(L_MIN, Ly)]
+            grid = []
+            for ny in range(Ny):
+                for nx in range(Nx):
+                    g = ny * Nx + nx
+                    grid += [v_abs(v_sub(v_mul(float(Ex), v_sub(XS[g][0], x0)), v_mul(float(nx), Lx))), v_abs(v_sub(v_mul(float(Ey), v_sub(XS[g][1], y0)), v_mul(float(ny), Ly)))]
+            dets = [geom(XS, cc)[2] for cc in conn]
+            area = [v_abs(v_sub(v_mul(float(Ex * Ey), d), v_mul(Lx, Ly))) for d in dets]
+            left_eq_l, left_eq_r, hull = [], [], []
+            for (a, b), (lT, lP, rT, rP) in (zip(edgeConns, edges) if tables_ok else ()):
+                wl = conn[lT][(lP + 2) % 3]
+                left_eq_l.append(orient(XS[a], XS[b], XS[wl]))
+                left_eq_r.append(dets[lT])
+                if rT >= 0:
+                    wr = conn[rT][(rP + 2) % 3]
+                    left_eq_l.append(orient(XS[a], XS[b], XS[wr]))
+                    left_eq_r.append(v_sub(0.0, dets[rT]))
+                else:
+                    hull += [orient(XS[a], XS[b], XS[z]) for z in range(Nx * Ny)]
+            atoms = [Le(grid, TOLG * max(Ex, Ey), name='nodes_on_the_regular_grid', scale=SC),
+                     Le(area, TOLA * Ex * Ey, name='element_area_is_LxLy_over_2ExEy', scale=SC),
+                     Le(0.99 * L_MIN * L_MIN / (Ex * Ey), dets, name='elements_counter_clockwise_positive_area', scale=SC)]
+            if tables_ok:       # (tables that already fail the ground comparison are reported there)
+                atoms += [Eq(left_eq_l, left_eq_r, name='left_element_left_of_edge_right_element_right', scale=SC),
+                          Le(-TOLA, hull, name='all_nodes_weakly_left_of_every_boundary_edge', scale=SC)]
+            return asm, atoms
+        c.prove('structured[%s]' % lab, spec, cap=60, order=('smt', 'nlsat'))
+
+
+# ------------------------------------------------------------------------------------------ O7
+@obligation(P, 'O7.edge_tables_geometry', cap=280)
+def o7(h):
+    """the real create_edges tables on the fixed topologies, read through the real Mesh.get_edge_coords on the elevated mesh: (ground) every directed side listed exactly once
+    with the right element/side numbers; (symbolic coordinates) the edge nodes of the left element run from edgeConns[i][0] to edgeConns[i][1] through the Lobatto points, the
+    right element returns the same points in reverse order, the left element's third vertex is to the left and the right element's to the right by exactly their signed areas"""
+    M, I = _mods()
+    common(h)
+    h.encoded(M.get_edge_coords, M.get_edge_field, M.get_edge_node_indices)
+    h.bounds(TOPO_TEXT.replace('orders 2, 3, 3+bubble (thorough: 4, 5 and the bubble elements P2b, P4b, P5b)', 'orders 2, 3 (thorough: 3b, 5)'), 'all vertex coordinates free in [-%g,%g]^2; tolerance %.3g' % (BOX, BOX, TOL_NODE))
+    cfgs = [(2, False), (3, False)] + ([(3, True), (5, False)] if h.thorough() else [])
+    for E in cases(h, case=False, cfgs=cfgs):
+        ec, ed = M.create_edges(jnp.array(E.conn))
+        edgeConns = [[int(v) for v in row] for row in onp.asarray(ec)]
+        edges = [[int(v) for v in row] for row in onp.asarray(ed)]
+        probs = edge_table_facts(E.conn, edgeConns, edges)
+        ground(h, 'O7[%s].edge_tables' % E.label, not probs, '%d edges; %s' % (len(edges), probs or 'tables agree with the side oracle'), dict(problems=probs))
+        if probs:
+            continue
+        n = E.order + 1
+
+        def fn(X, E=E, edges=edges):
+            m = M.mesh_with_coords(E.ho, E.fn(X))
+            out = []
+            for lT, lP, rT, rP in edges:
+                out.append(M.get_edge_coords(m, jnp.array([lT, lP])))
+                if rT >= 0:
+                    out.append(M.get_edge_coords(m, jnp.array([rT, rP])))
+            return out
+        emb = onp.asarray(E.ho.coords)[:E.nv]
+        c = Case(h, fn, dict(X=emb), sampler=emb_sampler(emb), label='create_edges + get_edge_coords ' + E.label, validate=2)
+
+        def spec(i, o, E=E, edges=edges, edgeConns=edgeConns, n=n):
+            X = i['X']
+            dets = [geom(X, cc)[2] for cc in E.conn]
+            lob, rev_l, rev_r, ol, orr = [], [], [], [], []
+            it = iter(o)
+            for (a, b), (lT, lP, rT, rP) in zip(edgeConns, edges):
+                eL = next(it)
+                for m in range(n):
+                    s = E.s1d[m]
+                    for d in range(2):
+                        lob.append(v_abs(v_sub(eL[m, d], v_add(v_mul(1.0 - s, X[a][d]), v_mul(s, X[b][d])))))
+                ol.append(orient(X[a], X[b], X[E.conn[lT][(lP + 2) % 3]]))
+                orr.append(dets[lT])
+                if rT >= 0:
+                    eR = next(it)
+                    for m in range(n):
+                        for d in range(2):
+                            rev_l.append(eR[m, d])
+                            rev_r.append(eL[n - 1 - m, d])
+                    ol.append(orient(X[a], X[b], X[E.conn[rT][(rP + 2) % 3]]))
+                    orr.append(v_sub(0.0, dets[rT]))
+            atoms = [Le(lob, TOL_NODE, name='left_edge_nodes_run_from_edgeConns0_to_edgeConns1_through_lobatto_points', scale=SC),
+                     Eq(ol, orr, name='left_element_left_right_element_right_by_their_signed_areas', scale=SC)]
+            if rev_l:
+                atoms.append(Eq(rev_l, rev_r, name='right_element_returns_the_same_points_reversed'))
+            return box(X), atoms
+        c.prove('O7[%s]' % E.label, spec, cap=40, order=('smt', 'nlsat'))
